@@ -138,7 +138,17 @@ def run(pid, tier, seed):
     r = vlib.tlc_must_pass(vlib.run_tlc("udp", "MC_UDP", "MC_UDP.cfg"), "MC_UDP")
     rep.add_tlc(r)
     big = tier == "thorough"
-    scs = concurrent_scenarios(tier) + sequential_scripts(rng, 60 if not big else 600, 30)
+    directed_seq = [
+        # a stale second Close of a connection whose remote has reconnected, after the listener was closed:
+        # the successor keeps the socket alive
+        ("seqd_stale_close", [[send(1), ACC, rd(0), cc(0), send(1), ACC, rd(1), LCL, cc(0), wr(1), send(1), rd(1), cc(1)]]),
+        ("seqd_stale_close2", [[send(1), ACC, cc(0), send(1), ACC, cc(0), cc(0), send(1), rd(1), wr(1), LCL, cc(0), wr(1), cc(1), cc(1)]]),
+        # a refused datagram directly followed by admitted ones from the same remote (one batch in batch mode)
+        ("seqd_refused_then_admitted", [[send(1, False), send(1), send(1), send(2, False), send(2, False), send(2), ACC, rd(0), rd(0), ACC, rd(1)]]),
+        ("seqd_overflow_then_room", [[send(1), send(2), send(3), send(3), ACC, send(3), send(3), ACC, ACC, rd(2), rd(2)]]),
+    ]
+    scs = concurrent_scenarios(tier) + [{"name": n, "clients": c} for n, c in directed_seq] \
+        + sequential_scripts(rng, 60 if not big else 600, 30)
     d = vlib.scratch("udp-")
     scen = os.path.join(d, "scen.ndjson")
     with open(scen, "w") as f:
